@@ -534,11 +534,45 @@ impl Family for Bitmaps {
     }
 }
 
+/// inline values of executions that follow an execution fed by long data
+struct AfterLongData;
+impl Family for AfterLongData {
+    fn name(&self) -> String {
+        "inline-after-long-data".into()
+    }
+    fn len(&self) -> u64 {
+        4
+    }
+    fn run(&self, idx: u64, st: &mut Stats) -> Result<(), Violation> {
+        st.nontrivial += 1;
+        st.bump("after_long_data");
+        let which = (idx % 2) as u16; // the parameter that is streamed first
+        let bind_again = idx / 2 == 1;
+        let p = |wire: Option<Vec<u8>>, long: bool, ty: u8| ExecParam { ty, unsigned: false, wire, long };
+        let first = if which == 0 { vec![p(None, true, 0xfc), p(Some(vec![9, 0, 0, 0]), false, 0x03)] } else { vec![p(Some(vec![3, b'a', b'b', b'c']), false, 0xfc), p(None, true, 0x03)] };
+        let second = vec![p(Some(vec![3, b'x', b'y', b'z']), false, 0xfc), p(Some(vec![7, 0, 0, 0]), false, 0x03)];
+        let payloads = vec![
+            with_byte(COM_STMT_PREPARE, b"id=1 p=2"),
+            cmd_long(1, which, b"streamed"),
+            cmd_execute(1, 0, 1, &exec_block(&first, true)),
+            cmd_execute(1, 0, 1, &exec_block(&second, bind_again)),
+            cmd_execute(1, 0, 1, &exec_block(&second, false)),
+        ];
+        super::registry::run_payloads(&payloads, &[], st).map(|_| ()).map_err(|mut v| {
+            v.key = format!("after-long-data:{}", v.key);
+            v
+        })
+    }
+    fn describe(&self, idx: u64) -> J {
+        json!({"streamed_parameter": idx % 2, "second_execution_rebinds": idx / 2 == 1, "history": "prepare(2), long data, execute (streamed), execute (all inline), execute (all inline, reuse)"})
+    }
+}
+
 pub fn build(quick: bool) -> Check {
     Check {
         id: "C08",
         level: "model_checking",
-        rule: "COM_STMT_EXECUTE parameter blocks built from semantic values by the independent encoder and run through the real run_on; the shim records (type, raw inner value) and applies the documented Into<T> for the corresponding Rust type under catch_unwind. Domains: TINY, SHORT, YEAR exhaustive (signed and unsigned); LONG/INT24/LONGLONG over every 2^k, 2^k+-1 and the bounds; FLOAT/DOUBLE lattices incl. subnormals and infinities; byte strings of every length 0..300 and the length-class edges for all 14 string-like type codes, 65535..65537 (and around 2^24 in thorough); every legal length form of DATE (0,4), DATETIME/TIMESTAMP (0,4,7,11) and TIME (0,8,12) over boundary calendar values, negative TIME raw only; all 25 type codes x unsigned in four position classes next to every other type; parameter counts 0..17, 63, 64, 65, 255, 256, 300 with all 2^n NULL bitmaps for n <= 10 (8 in quick) and structured ones above. Oracle: exactly n parameters, type = bound code, raw value = encoded value, conversion = encoded value (zero dates and negative TIME have no chrono/Duration form and are checked raw).".into(),
+        rule: "COM_STMT_EXECUTE parameter blocks built from semantic values by the independent encoder and run through the real run_on; the shim records (type, raw inner value) and applies the documented Into<T> for the corresponding Rust type under catch_unwind. Domains: TINY, SHORT, YEAR exhaustive (signed and unsigned); LONG/INT24/LONGLONG over every 2^k, 2^k+-1 and the bounds; FLOAT/DOUBLE lattices incl. subnormals and infinities; byte strings of every length 0..300 and the length-class edges for all 14 string-like type codes, 65535..65537 (and around 2^24 in thorough); every legal length form of DATE (0,4), DATETIME/TIMESTAMP (0,4,7,11) and TIME (0,8,12) over boundary calendar values, negative TIME raw only; all 25 type codes x unsigned in four position classes next to every other type; parameter counts 0..17, 63, 64, 65, 255, 256, 300 with all 2^n NULL bitmaps for n <= 10 (8 in quick) and structured ones above; inline executions that follow an execution fed by long data. Oracle: exactly n parameters, type = bound code, raw value = encoded value, conversion = encoded value (zero dates and negative TIME have no chrono/Duration form and are checked raw).".into(),
         assumptions: vec!["wider integer, float and string domains are covered at lattices".into()],
         bounds: json!({"all_bitmaps_up_to_params": if quick {8} else {10}}),
         exhaustive: true,
@@ -550,7 +584,8 @@ pub fn build(quick: bool) -> Check {
                 max_all: if quick { 8 } else { 10 },
                 big: vec![63, 64, 65, 255, 256, 300],
             }),
+            Box::new(AfterLongData),
         ],
-        required: vec!["values_bound", "microsecond_forms", "second_bitmap_byte"],
+        required: vec!["values_bound", "microsecond_forms", "second_bitmap_byte", "after_long_data"],
     }
 }
